@@ -1327,6 +1327,40 @@ def rule_shortcircuit(chk, prog, tier):
     r.exhaustive = False
 
 
+# ------------------------------------------------------------------ C01.p expressions of type void
+
+def rule_void_values(chk, prog, tier):
+    r = chk.rule('C01.p', 'an expression of type void is lowered for its side effects only: *p with a pointer to void evaluates p and loads nothing, a cast to void evaluates its operand, and neither produces an instruction that names a void value', floor=3,
+                 oracle='C11 6.3.2.2, 6.5.3.2p4')
+    fe = prog.require_func('funcexpr', 'qbe.c')
+    for case in ('deref-void', 'cast-to-void', 'comma-void-left'):
+        def runner(it):
+            w = World(prog, it=it, target='x86_64-sysv')
+            leaf = w.mkexpr('EXPRIDENT', w.mkptr(w.t('void'))); leaf.obj.ilabel = 'p'
+            ileaf = w.mkexpr('EXPRIDENT', w.t('int')); ileaf.obj.ilabel = 'i'
+            if case == 'deref-void': e = w.mkexpr('EXPRUNARY', w.t('void'), leaf, op=ev(prog, 'TMUL'))
+            elif case == 'cast-to-void': e = w.mkexpr('EXPRCAST', w.t('void'), ileaf)
+            else:
+                d = w.mkexpr('EXPRUNARY', w.t('void'), leaf, op=ev(prog, 'TMUL')); d.obj.f[('next',)] = ileaf
+                e = w.mkexpr('EXPRCOMMA', w.t('int'), d)
+            def funcexpr(i2, a, e_):
+                lbl = getattr(a[1].obj, 'ilabel', None)
+                if lbl is not None:
+                    i2.event('eval', lbl); return val('v:' + lbl)
+                return i2.call(fe, a)
+            M = backend_models(prog)
+            it.models.update(M)
+            it.models.update({'funcexpr': funcexpr, 'calcvla': lambda i2, a, e_: None})
+            res = it.call(fe, [Ptr(Obj('func', 'heap'), ()), e])
+            return [e_[1] for e_ in it.events if e_[0] == 'eval'], [(e_[1], e_[2]) for e_ in it.events if e_[0] == 'inst'], (res.obj.label if isinstance(res, Ptr) else res)
+        runs = explore(prog, runner, {}, max_runs=4, on_unsupported='keep')
+        run = runs[0]
+        want_ev = {'deref-void': ['p'], 'cast-to-void': ['i'], 'comma-void-left': ['p', 'i']}[case]
+        ok = len(runs) == 1 and run.outcome == 'return' and run.value[0] == want_ev and run.value[1] == []
+        r.instance(ok, 'void-value:' + case, 'qbe.c:%s' % fe.get('line'), 'expected the operands %s evaluated and no instruction; got %s %s' % (want_ev, run.outcome, run.value if run.outcome == 'return' else run.detail))
+    r.exhaustive = True
+
+
 def run(chk, tier):
     prog = facts.programs()['cproc-qbe']
     chk.guard('C01.a', lambda: rule_binop(chk, prog, tier))
@@ -1344,6 +1378,7 @@ def run(chk, tier):
     chk.guard('C01.m', lambda: rule_lvalues(chk, prog, tier))
     chk.guard('C01.n', lambda: rule_compound_assign(chk, prog, tier))
     chk.guard('C01.o', lambda: rule_shortcircuit(chk, prog, tier))
+    chk.guard('C01.p', lambda: rule_void_values(chk, prog, tier))
     from props import c05, c07
     chk.guard('C05.c', lambda: c05.rule_binary_types(chk, prog, tier))     # operand conversions / result types the lowering relies on
     chk.guard('C07.c', lambda: c07.rule_funcinit(chk, prog, tier))         # automatic initialisation
